@@ -8,6 +8,7 @@ ENS_ONLY_RT
 ENS_EVAL_ONE
 /* unary plus hands its operand through */
 PROP(C03) __CPROVER_ensures(OK ==> (RET == O1 && V_SAME(O1, A1)))
+PROP(C02) __CPROVER_ensures(OK ==> (V_MAJOR(RET) == V_MAJOR(A1) && V_LEVEL(RET) == V_LEVEL(A1) && VALID_TAG(RET)))
 ENS_FRAME1
 ENS_OWN1
 ;
